@@ -186,6 +186,7 @@ type Sess struct {
 	Live      bool            `json:"live"`
 	LastGrant map[int32]int32 `json:"lastGrant"`
 	CID       int32           `json:"cid"`
+	Notify    string          `json:"notify,omitempty"`
 	Tags      []int32         `json:"tags,omitempty"` // localSequenceNumbers reported on this session, in order
 	CreatedAt int             `json:"createdAt"`
 }
@@ -193,6 +194,8 @@ type Sess struct {
 type HistRun struct {
 	Steps []Step
 	Sess  []*Sess
+	// answers to the updates the re-entrant consumer sent from inside its notification handler
+	ReentrantCodes []int
 }
 
 func refOf(loc string) string {
@@ -252,6 +255,18 @@ func (w *World) execOn(supis []string, h *HistRun, ops []Op) []Step {
 }
 
 func (w *World) execInto(supis []string, h *HistRun, ops []Op, snapFrom int, withGor bool, quiesce bool) {
+	// the re-entrant consumer updates the first live session it was told about in a create
+	reentrantConsumer = func() {
+		for si, se := range h.Sess {
+			if se.Live && se.Notify == "http://smf-reentrant.example/notify" {
+				op := usageOp("update", si, 1, 10, se.LastGrant[1], int32(7000+len(h.ReentrantCodes)))
+				r := w.Do("POST", ccBase+"/chargingdata/"+url.PathEscape(se.Ref)+"/update", op.Request(se.Supi), nil)
+				h.ReentrantCodes = append(h.ReentrantCodes, r.Code)
+				return
+			}
+		}
+	}
+	defer func() { reentrantConsumer = nil }()
 	base := len(h.Steps)
 	for i0, op := range ops {
 		i := base + i0
@@ -291,7 +306,7 @@ func (w *World) execInto(supis []string, h *HistRun, ops []Op, snapFrom int, wit
 			st.Resp = w.Do("POST", ccBase+"/chargingdata", body, nil)
 			if st.Resp.Code == 201 && op.OTE == "" {
 				h.Sess = append(h.Sess, &Sess{U: op.U, Supi: supi, Ref: refOf(st.Resp.Location), Cons: op.Cons, Live: true,
-					LastGrant: map[int32]int32{}, CID: op.CID, CreatedAt: i})
+					LastGrant: map[int32]int32{}, CID: op.CID, CreatedAt: i, Notify: op.Notify})
 				se = h.Sess[len(h.Sess)-1]
 			}
 		case "fill":
